@@ -39,3 +39,22 @@ Check C19_window : forall q st0 t0 gaps, init false q = Some st0 -> 0 <= q ->
 Print Assumptions C19_ctor.
 Print Assumptions C19_delay.
 Print Assumptions C19_window.
+
+(* --- through a rate-limited SESSION (Model/PyLayer.v: the Python layer on any script of socket results): the trace of every
+   API call is a sequence of requests each released by exactly one consultation of the session's policer (a send repeated
+   after a full socket buffer shares it); consultations = requests.  The histories of C19_window are these consultations. *)
+From GS Require Import Model.Base Model.Exc Model.Walk Model.PyLayer Proofs.PyLayerProofs.
+Theorem C19_session_policed :
+  forall (cfg : pycfg) (fuel : nat) (a : api) (script : list tok), pc_policer cfg = true -> well_policed (r_events (run_api cfg fuel a script)).
+Proof. exact session_policed. Qed.
+
+Theorem C19_session_policed_count :
+  forall (cfg : pycfg) (fuel : nat) (a : api) (script : list tok), pc_policer cfg = true -> exists n : nat, n_requests (r_events (run_api cfg fuel a script)) n /\ count_police (r_events (run_api cfg fuel a script)) = n.
+Proof. exact session_policed_count. Qed.
+
+Check C19_session_policed :
+  forall (cfg : pycfg) (fuel : nat) (a : api) (script : list tok), pc_policer cfg = true -> well_policed (r_events (run_api cfg fuel a script)).
+Check C19_session_policed_count :
+  forall (cfg : pycfg) (fuel : nat) (a : api) (script : list tok), pc_policer cfg = true -> exists n : nat, n_requests (r_events (run_api cfg fuel a script)) n /\ count_police (r_events (run_api cfg fuel a script)) = n.
+Print Assumptions C19_session_policed.
+Print Assumptions C19_session_policed_count.
